@@ -37,10 +37,14 @@ func runC10(c *core.Ctx) {
 	checkIsFolds(c)
 	c.Rule("REFL", "inductive step of reflexivity of Is, per TypeID")
 	c.Rule("SUM", "case structure of TypeSum: subsumption, accumulator threading, normal form")
+	c.Rule("VTYPE", "Value.Type folds every element's type")
+	c.Rule("UB", "TypeSum of two structs/tuples is a type both operands are")
 	checkReflexiveStep(c)
 	checkTypeSumShape(c)
 	checkLoopRefs(c, "LOOPREF", []string{"octosql"})
 	_ = p
+	checkValueTypeFold(c)
+	checkSumUpperBoundArity(c)
 }
 
 func checkNonNullable(c *core.Ctx) {
@@ -489,6 +493,15 @@ func checkTypeSumShape(c *core.Ctx) {
 			if alts != nil {
 				as = alts.Canon()
 			}
+			// the operands are values shared with the caller: the sum must be built in a fresh slice
+			for _, e := range o.Events {
+				if strings.HasPrefix(e.Name, "store t1.") || strings.HasPrefix(e.Name, "store t2.") {
+					bad = "TypeSum writes into its operand (" + e.Name + "): the caller's type changes under its feet, and TypeSum(a,b) ≠ TypeSum(b,a) afterwards"
+				}
+			}
+			if strings.HasPrefix(as, "append(t1.Union.Alternatives;") || strings.HasPrefix(as, "append(t2.Union.Alternatives;") {
+				bad = "the sum's alternatives are appended to the operand's own slice (" + as + "): with spare capacity the operand's backing array is overwritten and then re-sorted in place; copy the alternatives first"
+			}
 			if strings.Contains(o.Ref, "merged") {
 				if !strings.Contains(ev, "TS(") || !strings.Contains(ev, ",t2)") {
 					bad = "an alternative with t2's TypeID must be merged with t2 (TypeSum(alternative, t2)); events: " + ev
@@ -543,4 +556,133 @@ func showForSum(st *absint.State, v absint.Val) string {
 		}
 	}
 	return v.Canon()
+}
+
+// checkValueTypeFold (VTYPE): Value.Type() of a container folds the type of *every* element into the reported type
+// (list: TypeSum over all elements; struct/tuple: one slot per element).  An element that is skipped — because it
+// "looks like" the ones before — can be of a different nested type, and the value then does not match its own type.
+func checkValueTypeFold(c *core.Ctx) {
+	p := c.Prog
+	ids := typeIDs(p)
+	fn := p.Func("octosql", "Value.Type")
+	key := "octosql.Value.Type"
+	if fn == nil {
+		c.Unknown("VTYPE", key, 0, "anchor not found")
+		return
+	}
+	c.SawFunc(key)
+	recv := fn.Decl.Recv.List[0].Names[0].Name
+	for _, kind := range []string{"TypeIDList", "TypeIDStruct", "TypeIDTuple"} {
+		kind := kind
+		in := newInterp(p, fn)
+		in.MaxPaths = 4000
+		in.Hooks.Field = func(st *absint.State, base absint.Val, sel string) (absint.Val, bool) {
+			if sel == "TypeID" && base.Canon() == recv {
+				return absint.Int(ids[kind]), true
+			}
+			return nil, false
+		}
+		in.Hooks.Loop = func(st *absint.State, loop ast.Stmt) *absint.LoopSpec {
+			return &absint.LoopSpec{Cases: []string{"E"}, MaxIter: 3, MinIter: 1, RefStep: func(ref, cs string) string { return "" }}
+		}
+		in.Hooks.Call = func(st *absint.State, call *ast.CallExpr, callee string, rv absint.Val, args []absint.Val) (absint.Val, bool) {
+			switch callee {
+			case "octosql.Value.Type":
+				st.Emit("ELEMTYPE", call.Pos(), rv)
+				return absint.S("T(" + rv.Canon() + ")"), true
+			case "octosql.TypeSum":
+				return absint.S("TS(" + args[0].Canon() + "," + args[1].Canon() + ")"), true
+			}
+			return nil, false
+		}
+		outs, err := runDecl(in, fn, nil, "")
+		ckey := key + "/" + strings.TrimPrefix(kind, "TypeID")
+		if err != nil {
+			c.Unknown("VTYPE", ckey, fn.Decl.Pos(), err.Error())
+			continue
+		}
+		bad := ""
+		n := 0
+		for _, o := range outs {
+			if o.Kind != "return" {
+				continue
+			}
+			n++
+			iters := len(o.Trace)
+			recs := 0
+			for _, e := range o.Events {
+				if e.Name == "ELEMTYPE" {
+					recs++
+				}
+			}
+			if recs != iters {
+				bad = fmt.Sprintf("over %d element(s) only %d element type(s) are taken into the reported type: a skipped element can have a different (nested) type, and the value then does not match the type it reports for itself", iters, recs)
+			}
+			if t := fieldAt(o, o.Values[0], "TypeID"); t == nil || t.Canon() != fmt.Sprint(ids[kind]) {
+				bad = "the reported type must be of the value's own kind"
+			}
+		}
+		if bad == "" && n < 2 {
+			bad = fmt.Sprintf("only %d returning path(s) explored", n)
+		}
+		c.Decide(bad == "", "VTYPE", ckey, fn.Decl.Pos(), len(outs), "every element's type is folded into the reported type", bad)
+	}
+}
+
+// checkSumUpperBoundArity (UB): Is demands equal arity for structs and tuples (a length mismatch is Isnt).  TypeSum's
+// arm for two structs / two tuples therefore has to produce a type of the operands' arity, or fall back to a union,
+// whenever the arities (field name sets) differ; merging into a wider struct/tuple yields a "sum" neither operand Is.
+func checkSumUpperBoundArity(c *core.Ctx) {
+	p := c.Prog
+	is := p.Func("octosql", "Type.Is")
+	sum := p.Func("octosql", "TypeSum")
+	if is == nil || sum == nil {
+		c.Unknown("UB", "octosql.TypeSum", 0, "anchor not found")
+		return
+	}
+	for _, k := range []struct{ kind, field string }{{"Struct", "Struct.Fields"}, {"Tuple", "Tuple.Elements"}} {
+		// does Is reject a length mismatch for this kind?
+		strict := false
+		ast.Inspect(is.Decl.Body, func(n ast.Node) bool {
+			ifs, ok := n.(*ast.IfStmt)
+			if !ok {
+				return true
+			}
+			cs := core.ExprStr(ifs.Cond)
+			if strings.Contains(cs, "len(") && strings.Contains(cs, "."+k.field+") != len(") {
+				for _, s := range ifs.Body.List {
+					if rs, ok := s.(*ast.ReturnStmt); ok && len(rs.Results) == 1 && core.ExprStr(rs.Results[0]) == "TypeRelationIsnt" {
+						strict = true
+					}
+				}
+			}
+			return true
+		})
+		// TypeSum's arm for two values of the kind
+		var arm *ast.IfStmt
+		ast.Inspect(sum.Decl.Body, func(n ast.Node) bool {
+			ifs, ok := n.(*ast.IfStmt)
+			if ok && core.ExprStr(ifs.Cond) == "t1.TypeID == TypeID"+k.kind+" && t2.TypeID == TypeID"+k.kind {
+				arm = ifs
+			}
+			return true
+		})
+		key := "octosql.TypeSum/" + k.kind + " + " + k.kind + " of different arity"
+		if arm == nil {
+			c.OK("UB", key, sum.Decl.Pos(), 1, "no merging arm for two "+k.kind+"s: they sum to a union, which both are")
+			continue
+		}
+		guarded := false
+		ast.Inspect(arm.Body, func(n ast.Node) bool {
+			if ifs, ok := n.(*ast.IfStmt); ok {
+				cs := core.ExprStr(ifs.Cond)
+				if strings.Contains(cs, "len(t1."+k.field) && strings.Contains(cs, "len(t2."+k.field) && (strings.Contains(cs, "!=") || strings.Contains(cs, "==")) {
+					guarded = true
+				}
+			}
+			return true
+		})
+		c.Decide(!strict || guarded, "UB", key, arm.Pos(), 1, "merged only when the arities agree",
+			fmt.Sprintf("TypeSum merges two %ss of different arity / field sets into one wider %s (missing positions become nullable), but Type.Is requires equal arity: neither operand Is the sum, so TypeSum is not an upper bound for them", k.kind, k.kind))
+	}
 }
